@@ -339,7 +339,7 @@ func genOffset(r *hx.Rand, size int64, cs int) int64 {
 	return int64(r.Intn(int(size) + 1))
 }
 
-func readLine(r *hx.Rand, b blob, cs int) string {
+func readLine(r *hx.Rand, b blob, cs int, zfail bool) string {
 	kind := "id"
 	switch r.Intn(12) {
 	case 0, 1, 2, 3:
@@ -355,10 +355,16 @@ func readLine(r *hx.Rand, b blob, cs int) string {
 		limit = r.PickInt(1, 5, -1)
 	}
 	failAt := 0
-	if r.Chance(1, 8) && kind != "zstd" && kind != "zstd.i" {
-		// (the compressed path flushes in a deferred Close whose error is dropped; a failing
-		// Send means the stream is dead anyway, so this is not observable by a client)
+	if r.Chance(1, 8) {
 		failAt = r.Range(1, 4)
+		if strings.HasPrefix(kind, "zstd") {
+			// how the encoder cuts its output into Sends is its own business: only "the first
+			// Send fails" is scripted, and only on a tree whose compressed path reports it
+			failAt = 1
+			if !zfail {
+				failAt = 0
+			}
+		}
 	}
 	return fmt.Sprintf("read %s %s %d %d %d %d", kind, b.hash, b.size, genOffset(r, b.size, cs), limit, failAt)
 }
@@ -385,7 +391,7 @@ func genWriteCase(r *hx.Rand, run *hx.Run) []string {
 	return script
 }
 
-func genReadCase(r *hx.Rand) []string {
+func genReadCase(r *hx.Rand, zfail bool) []string {
 	cs := pickCS(r)
 	script := []string{fmt.Sprintf("#cfg %d %d", cs, 200)}
 	var blobs []blob
@@ -415,7 +421,53 @@ func genReadCase(r *hx.Rand) []string {
 		} else if r.Chance(1, 6) {
 			script = append(script, "getmode slice")
 		}
-		script = append(script, readLine(r, b, cs))
+		script = append(script, readLine(r, b, cs, zfail))
 	}
 	return script
+}
+
+// genTeardownCase: more streams than the pools have slots are torn down (Send fails, the
+// client's stream breaks, the medium fails, the data does not decode); afterwards ordinary
+// compressed reads at several offsets and a compressed upload must still work.
+func genTeardownCase(r *hx.Rand, zfail bool) []string {
+	cs := pickCS(r)
+	script := []string{fmt.Sprintf("#cfg %d 200", cs)}
+	b := mkBlob(r.Bytes(r.Range(3, 40)))
+	script = append(script, storeLine(b))
+	for i, n := 0, poolSlots+r.Range(1, 3); i < n; i++ {
+		switch r.Intn(5) {
+		case 0:
+			if zfail {
+				script = append(script, fmt.Sprintf("read zstd %s %d %d 0 1", b.hash, b.size, r.Intn(int(b.size))))
+				break
+			}
+			fallthrough
+		case 1:
+			script = append(script, fmt.Sprintf("getmode stream %d %d 14", r.PickInt(1, 3, 64), r.Range(0, int(b.size))),
+				fmt.Sprintf("read zstd %s %d 0 0 0", b.hash, b.size), "getmode slice")
+		case 2: // the client's upload stream breaks
+			x := mkBlob(r.Bytes(r.Range(1, 30)))
+			op := &writeOp{kind: "zstd", hash: x.hash, size: fmt.Sprint(x.size), end: streamErrs[r.Intn(len(streamErrs))]}
+			op.msgs = validMsgs(r, genCompressed(r, x.data))
+			op.msgs = op.msgs[:r.Range(1, len(op.msgs))]
+			op.msgs[len(op.msgs)-1].fin = false
+			script = append(script, writeLine(op))
+		case 3: // the upload does not decode / does not match
+			x := mkBlob(r.Bytes(r.Range(1, 30)))
+			op := &writeOp{kind: "zstd", hash: x.hash, size: fmt.Sprint(x.size), end: "eof"}
+			op.msgs = []wmsg{{0, r.Bytes(r.Range(1, 12)), true}}
+			if r.Chance(1, 2) {
+				op.msgs = validMsgs(r, genCompressed(r, append([]byte{1}, x.data...)))
+			}
+			script = append(script, writeLine(op))
+		case 4:
+			script = append(script, fmt.Sprintf("read id %s %d 0 0 1", b.hash, b.size))
+		}
+	}
+	for _, off := range []int64{0, b.size / 2, b.size} {
+		script = append(script, fmt.Sprintf("read zstd %s %d %d 0 0", b.hash, b.size, off))
+	}
+	y := mkBlob(r.Bytes(r.Range(1, 30)))
+	op := &writeOp{kind: "zstd", hash: y.hash, size: fmt.Sprint(y.size), end: "eof", msgs: validMsgs(r, genCompressed(r, y.data))}
+	return append(script, writeLine(op), fmt.Sprintf("read zstd %s %d 0 0 0", y.hash, y.size))
 }
